@@ -97,6 +97,15 @@ def gen(rng, tier):
             for _ in range(3):
                 c = rng.choice(pos) if pos and rng.random() < 0.8 else rng.randrange(1, n)
                 out.append(mkl(depth, fl, t, [c], kind, rng.choice("GT")))
+    # small scope, exhaustively: every string of 2..3 (quick) / 2..4 (thorough) bytes over the bytes that select a
+    # different transition, every cut position, default mode (strict for a third)
+    import itertools
+    small = bytes(sorted(set(b'{}[]:,"\\/* \n0-1.eEtn\'\xc3\xa9')))
+    for ln in range(2, 4 if tier == "quick" else 5):
+        for k, tup in enumerate(itertools.product(small, repeat=ln)):
+            t = bytes(tup)
+            for c in range(1, ln):
+                out.append(mk(32, STRICT if k % 3 == 0 else 0, t, [c], "small-scope"))
     # long tokens (numbers, strings, literals runs, comments of 1000..5000 bytes): limits that look only at the part
     # scanned in the current call show up when no single call sees the whole token
     nlong = 24 if tier == "quick" else 400
